@@ -177,3 +177,48 @@ package server
 //@   at-call buildAndSend assert [C03,C19:success-only-authed] int(typeOf(arg2).Class) == 2 ==> authOK
 //@   at-call (*allocation.Manager).GetAllocationForUserID assert [C03,C04:own-tuple] recv == req.AllocationManager && ownTuple(arg0, req) && authOK && arg1 == authUser
 //@   ensures [C03:answered-only-requester] forall c :: c != req.Conn ==> pktWrites[c] == old(pktWrites[c])
+
+//@      // ---- Refresh (C03, C04, C06, C19)
+//@ spec func lifetimeOf(req Request, m *stun.Message) int = (present(m, stun.AttrLifetime, 4) && be32(attr(m, stun.AttrLifetime), 0) * 1000000000 < 3600000000000) ? be32(attr(m, stun.AttrLifetime), 0) * 1000000000 : int(req.AllocationLifetime)
+//@ spec func ownCloseReady(req Request) bool = ownAlloc(req) != nil ==> (closeReady(ownAlloc(req)) && ownAlloc(req).lifetimeTimer != nil && ownAlloc(req).log != nil)
+
+//@ func handleRefreshRequest
+//@   requires reqWF(req) && ownWF(req) && ownCloseReady(req) && stunMsg != nil && req.NonceHash != nil && req.AllocationManager.log != nil
+//@   fresh authOK
+//@   opaque allocWF, permTimers, chanTimers, timersDisjoint, chanNumsUnique, chanPeersUnique, chanRange, chansWF, chanPeersNonNil, permKeysOK, closeReady
+//@   at-call buildAndSend assert [C19:correlated] respondsTo(req, stunMsg, arg0, arg1, arg2)
+//@   at-call buildAndSendErr assert [C19:correlated] respondsTo(req, stunMsg, arg0, arg1, arg3)
+//@   at-call (*allocation.Manager).GetAllocationForUserID assert [C03,C04:own-tuple] recv == req.AllocationManager && ownTuple(arg0, req) && authOK && arg1 == authUser
+//@   at-call (*allocation.Allocation).Refresh assert [C04,C06:refresh-value] recv == ownAlloc(req) && int(arg0) == lifetimeOf(req, stunMsg) && int(arg0) != 0
+//@   at-call (*allocation.Manager).DeleteAllocation assert [C03,C04,C06:zero-deletes] recv == req.AllocationManager && ownTuple(arg0, req) && authOK && lifetimeOf(req, stunMsg) == 0 && ownAlloc(req) != nil && ownAlloc(req).userID == authUser
+//@   at-call buildAndSend assert [C06,C19:lifetime-echo] int(typeOf(arg2).Class) == 2 ==> authOK && len(arg2) == 4 && typeis(arg2[2], *proto.Lifetime) && int(arg2[2].(*proto.Lifetime).Duration) == lifetimeOf(req, stunMsg)
+//@   at-call buildAndSend assert [C06:done-before-success] int(typeOf(arg2).Class) == 2 ==> (lifetimeOf(req, stunMsg) == 0 ? ownAlloc(req) == nil : timerSet(old(ownAlloc(req)).lifetimeTimer, lifetimeOf(req, stunMsg)))
+//@   ensures [C03:answered-only-requester] forall c :: c != req.Conn ==> pktWrites[c] == old(pktWrites[c])
+
+//@      // ---- Allocate (C03, C04, C06, C19)
+//@ spec func mgrReady(m *allocation.Manager) bool = m.log != nil && m.allocations != nil && m.allocatePacketConn != nil && m.allocateListener != nil && (forall i :: 0 <= i && i < len(m.reservations) ==> m.reservations[i] != nil)
+//@ spec func isRelayedAttr(s stun.Setter, addr net.Addr) bool = typeis(s, *proto.RelayedAddress) && sameSlice(s.(*proto.RelayedAddress).IP, ipOf(addr)) && s.(*proto.RelayedAddress).Port == portOf(addr)
+//@ spec func isMappedAttr(s stun.Setter, addr net.Addr) bool = typeis(s, *stun.XORMappedAddress) && sameSlice(s.(*stun.XORMappedAddress).IP, ipOf(addr)) && s.(*stun.XORMappedAddress).Port == portOf(addr)
+//@ spec func isLifetimeAttr(s stun.Setter, d int) bool = typeis(s, *proto.Lifetime) && int(s.(*proto.Lifetime).Duration) == d
+
+//@ func handleAllocateRequest
+//@   requires reqWF(req) && stunMsg != nil && req.NonceHash != nil && mgrReady(req.AllocationManager) && req.SrcAddr != nil
+//@   requires ownAlloc(req) != nil ==> true
+//@   fresh authOK
+//@   at-call buildAndSend assert [C19:correlated] respondsTo(req, stunMsg, arg0, arg1, arg2)
+//@   at-call buildAndSendErr assert [C19:correlated] respondsTo(req, stunMsg, arg0, arg1, arg3)
+//@   at-call buildAndSend assert [C03,C19:success-only-authed] int(typeOf(arg2).Class) == 2 ==> authOK
+//@   at-call (*allocation.Manager).GetAllocation assert [C04:own-tuple] recv == req.AllocationManager && ownTuple(arg0, req)
+//@   at-call (*allocation.Manager).CreateAllocation assert [C03,C04:own-tuple] recv == req.AllocationManager && ownTuple(arg0, req) && arg1 == req.Conn && authOK && arg5 == authUser
+//@   at-call (*allocation.Manager).CreateAllocation assert [C19:no-create-when-exists] ownAlloc(req) == nil
+//@   at-call (*allocation.Manager).CreateAllocation assert [C06:lifetime-installed] int(arg4) == lifetimeOf(req, stunMsg)
+//@   at-call buildAndSendErr assert [C19:mismatch-437] old(ownAlloc(req)) != nil ==> errCodeOf(arg3) == 437 && int(typeOf(arg3).Class) == 3
+//@   at-call buildAndSendErr assert [C19:mismatch-only-when-exists] errCodeOf(arg3) == 437 ==> old(ownAlloc(req)) != nil
+//@   at-call buildAndSend assert [C19:success-installed] int(typeOf(arg2).Class) == 2 && old(ownAlloc(req)) == nil ==> ownAlloc(req) != nil && len(arg2) >= 6
+//@   at-call buildAndSend assert [C19:success-relayed] int(typeOf(arg2).Class) == 2 && old(ownAlloc(req)) == nil ==> isRelayedAttr(arg2[2], ownAlloc(req).RelayAddr)
+//@   at-call buildAndSend assert [C06,C19:success-lifetime] int(typeOf(arg2).Class) == 2 && old(ownAlloc(req)) == nil ==> isLifetimeAttr(arg2[3], lifetimeOf(req, stunMsg))
+//@   at-call buildAndSend assert [C06,C19:success-timer] int(typeOf(arg2).Class) == 2 && old(ownAlloc(req)) == nil ==> timerSet(ownAlloc(req).lifetimeTimer, lifetimeOf(req, stunMsg))
+//@   at-call buildAndSend assert [C19:success-mapped] int(typeOf(arg2).Class) == 2 && old(ownAlloc(req)) == nil ==> isMappedAttr(arg2[4], req.SrcAddr)
+//@   at-call buildAndSend assert [C19:retransmit-same] int(typeOf(arg2).Class) == 2 && old(ownAlloc(req)) != nil ==> ownAlloc(req) == old(ownAlloc(req)) && allocCreatedEvents == old(allocCreatedEvents)
+//@   ensures [C03:answered-only-requester] forall c :: c != req.Conn ==> pktWrites[c] == old(pktWrites[c])
+//@   ensures [C19:existing-untouched] old(ownAlloc(req)) != nil ==> ownAlloc(req) == old(ownAlloc(req)) && allocCreatedEvents == old(allocCreatedEvents)
